@@ -239,7 +239,38 @@ let mem_cmd (toks : string list) : string option =
       Some (String.concat " || " (List.rev !outs))
   | _ -> None
 
-let handlers : (string list -> string option) list ref = ref [index_cmd; tree_cmd; exec_cmd; mem_cmd]
+let exectsm_cmd (toks : string list) : string option =
+  match toks with
+  | "exectsm" :: d :: per :: h :: b :: mode :: stop :: nf :: rest ->
+      let nf = int_of_string nf in
+      let flags = take nf rest in
+      let rest = drop nf rest in
+      let di = int_of_string d in
+      (match rest with
+       | ns :: r1 ->
+           let ns_i = int_of_string ns in
+           let snums = take (ns_i * di) r1 in
+           (match drop (ns_i * di) r1 with
+            | nt :: tnums ->
+                (match parse_tree ("tree" :: d :: per :: h :: b :: mode :: ns :: snums),
+                       parse_tree ("tree" :: d :: per :: h :: b :: mode :: nt :: tnums) with
+                 | Some (_, perb, _, ts, _, _), Some (_, _, _, tt, _, _) ->
+                     let dn = nat_of_int di in
+                     let bf = Buffer.create 1024 in
+                     Buffer.add_string bf (dump_tree ts); Buffer.add_string bf " || "; Buffer.add_string bf (dump_tree tt);
+                     Buffer.add_string bf " || ";
+                     let first = ref true in
+                     List.iter (fun f ->
+                       let calls = execute_tsm dn perb (z_of_string stop) (z_of_string f) ts tt in
+                       List.iter (fun c -> if not !first then Buffer.add_string bf " ; "; first := false; Buffer.add_string bf (call_str c)) calls;
+                       if not !first then Buffer.add_string bf " ; "; first := false; Buffer.add_string bf "--") flags;
+                     Some (Buffer.contents bf)
+                 | _ -> None)
+            | [] -> None)
+       | [] -> None)
+  | _ -> None
+
+let handlers : (string list -> string option) list ref = ref [index_cmd; tree_cmd; exec_cmd; exectsm_cmd; mem_cmd]
 
 let () =
   let ic = open_in Sys.argv.(1) in
